@@ -503,6 +503,9 @@ func lexString(l *lexer) stateFn {
 			l.emit(tokenText)
 			l.pos += len(delimOpenInterpolate)
 			l.emit(tokenInterpolateOpen)
+			// (The string may itself stand inside an interpolation, which
+			// goes on when this one is over.)
+			mode := l.mode
 			l.mode = modeInterpolate
 			// Brackets opened around the string must not hide the closing
 			// brace of the interpolation.
@@ -515,7 +518,7 @@ func lexString(l *lexer) stateFn {
 				return nil
 			}
 			l.parens, l.brackets = parens, brackets
-			l.mode = modeNormal
+			l.mode = mode
 			l.emit(tokenInterpolateClose)
 		}
 		if l.pos < len(l.input) {
